@@ -331,16 +331,27 @@ def run(ctx):
         b = wfh.body
         t = [c for c in nonforeign_calls(wfh) if c.is_("formatting::write_type_line")]
         h = [c for c in nonforeign_calls(wfh) if c.is_("formatting::write_help_line")]
-        ret = sym_through(Sym(wfh).local(0), "Deref::deref", "String::as_str")
-        ok = len(t) == 1 and len(h) == 1 and not in_cycle(b, t[0].bb)
+        def _alts(x):
+            x = strip_sym(sym_through(x, "Deref::deref", "String::as_str"))
+            if x[0] == "phi":
+                return [y for z in x[1] for y in _alts(z)]
+            return [repr(x)]
+
+        rets = set(_alts(Sym(wfh).local(0)))
+        # exactly one TYPE line on every path, HELP (where written) before it, both under the name that path returns
+        ok = len(t) >= 1 and len(h) >= 1 and not any(in_cycle(b, c.bb) for c in t + h)
         if ok:
-            tn = sym_through(arg_syms(t[0])[1], "Deref::deref", "String::as_str")
-            hn = sym_through(arg_syms(h[0])[1], "Deref::deref", "String::as_str")
-            ok = repr(tn) == repr(ret) and repr(hn) == repr(ret) and is_param(arg_syms(t[0])[2], 4)
-            # HELP before TYPE, TYPE on every path
-            ok = ok and not b.dominates(t[0].bb, h[0].bb) and t[0].bb not in b.reachable(h[0].bb, cut=set()) or ok and t[0].bb in b.reachable(h[0].bb)
-            ok = ok and not [r for r in b.return_blocks() if r in b.reachable(0, cut={t[0].bb})]
-            ok = ok and h[0].bb not in b.reachable(t[0].bb)
+            tbs = {c.bb for c in t}
+            ok = not [r for r in b.return_blocks() if r in b.reachable(0, cut=tbs)]
+            ok = ok and not any(c2.bb in b.reachable_after(c.bb) for c in t for c2 in t)
+            for c in t:
+                tn = _alts(arg_syms(c)[1])
+                ok = ok and set(tn) <= rets and (len(t) > 1 or set(tn) == rets) and is_param(arg_syms(c)[2], 4)
+            for c in h:
+                after = [c2 for c2 in t if c2.bb in b.reachable(c.bb)]
+                hn = _alts(arg_syms(c)[1])
+                ok = ok and bool(after) and all(set(_alts(arg_syms(c2)[1])) == set(hn) for c2 in after)
+                ok = ok and not any(c.bb in b.reachable_after(c2.bb) for c2 in t)
         chk.ob("C08.d", wfh.path, ok, "HELP (if described) then exactly one TYPE line, both with the returned family name" if ok else "the family header does not write HELP-then-TYPE with the name it returns on every path", wfh.loc())
     if wml:
         b = wml.body
@@ -423,28 +434,29 @@ def run(ctx):
     # label pairs are escaped where they are emitted
     ktp = p.fn(f"{FMT}::key_to_parts")
     if need(chk, "C08.g", "formatting::key_to_parts", ktp):
-        emits = []
-        for c in nonforeign_calls(ktp):
-            if c.fn is ktp and c.is_("Iterator::map"):
-                cl = strip_sym(Sym(ktp).operand(c.args[1]))
-                if cl[0] == "agg" and cl[1] == "closure" and p.fn(cl[5]) is not None:
-                    emits.append(p.fn(cl[5]))
-        ok = bool(emits)
-        detail = "no per-label formatting closure found"
-        # every closure that formats label pairs, on every path of key_to_parts (a second, `fast` emission path included)
-        for emit in emits:
-            sk = [c for c in emit.body.calls() if c.is_("formatting::sanitize_label_key")]
-            sv = [c for c in emit.body.calls() if c.is_("formatting::sanitize_label_value")]
-            sy = Sym(emit)
-            def from_param(c, fld, acc):
-                a = strip_sym(sym_through(sy.operand(c.args[0]), "Deref::deref", "String::as_str", "AsRef::as_ref"))
-                if sym_is_call(a, acc):
-                    a0 = strip_sym(a[2][0])
-                    return sym_arg(a0) is not None and sym_arg(a0)[0] == 1
-                return a[0] == "field" and a[2] == fld and sym_arg(a[1]) is not None and sym_arg(a[1])[0] == 1
-            ok1 = len(sk) == 1 and len(sv) == 1 and from_param(sk[0], "0", "Label::key") and from_param(sv[0], "1", "Label::value")
-            if not ok1 or len(emits) == 1:
-                detail = f"label key sanitised at emission: {len(sk) == 1}, label value escaped at emission: {len(sv) == 1}"
+        # every place key_to_parts formats a label pair — a closure of a map(), a loop body, a second `fast` path —
+        # writes sanitize_label_key(k) and sanitize_label_value(v), k and v being the two halves of one label / map entry
+        fmts = []
+        for g_ in ktp.region():
+            gs = Sym(g_)
+            for c in g_.body.calls():
+                if "fmt::format" in (c.resolved or c.callee or "") and strip_generics(c.resolved or c.callee or "").split("::")[-1] == "format":
+                    shown = [x for x in sym_walk(gs.operand(c.args[0])) if isinstance(x, tuple) and x and x[0] == "call" and isinstance(x[1], str) and strip_generics(x[1]).split("::")[-1] in ("new_display", "new_debug")]
+                    fmts.append((g_, c, shown))
+        ok = bool(fmts)
+        detail = "no place where a label pair is formatted was found"
+        for g_, c, shown in fmts:
+            def half(x, san, fld, acc):
+                inner = [y for y in sym_walk(x) if isinstance(y, tuple) and y and y[0] == "call" and isinstance(y[1], str) and y[1].endswith(san)]
+                if len(inner) != 1:
+                    return False
+                src = strip_sym(sym_through(inner[0][2][0], "Deref::deref", "String::as_str", "AsRef::as_ref"))
+                if sym_is_call(src, acc):
+                    return True
+                return src[0] == "field" and src[2] == fld
+            ok1 = len(shown) == 2 and half(shown[0], "formatting::sanitize_label_key", "0", "Label::key") and half(shown[1], "formatting::sanitize_label_value", "1", "Label::value")
+            if not ok1:
+                detail = f"label key sanitised at emission: {len(shown) == 2 and half(shown[0], 'formatting::sanitize_label_key', '0', 'Label::key')}, label value escaped at emission: {len(shown) == 2 and half(shown[1], 'formatting::sanitize_label_value', '1', 'Label::value')}"
             ok = ok and ok1
         chk.ob("C08.g", f"{ktp.path} [every emitted label pair is sanitised]", ok, "each (k, v) of the merged map is written as sanitize_label_key(k)=\"sanitize_label_value(v)\"" if ok else f"label pairs are not sanitised where they are written ({detail}): a value that enters the merged map by another route (e.g. a global label) is emitted verbatim and can end the value early or forge a line", ktp.loc())
 
